@@ -6,7 +6,10 @@ use crate::push::state::*;
 #[cfg(feature = "verif")]
 use crate::push::verif_seam::rand_shim as rand;
 use rand::Rng;
+#[cfg(not(feature = "verif"))]
 use std::collections::HashMap;
+#[cfg(feature = "verif")]
+use crate::push::verif_seam::DetMap as HashMap;
 
 pub fn load_boolean_instructions(map: &mut HashMap<String, Instruction>) {
     map.insert(String::from("BOOLEAN.="), Instruction::new(boolean_eq));
